@@ -43,25 +43,35 @@ func c10(c *Ctx) {
 		fk := c.FK(T)
 		// stall predicate: comparison of invoke Fan.GetRpmAvg with a constant
 		var stallEdges []edge
-		Instrs(T, func(ins ssa.Instruction) {
-			b, ok := ins.(*ssa.BinOp)
-			if !ok {
-				return
-			}
-			call, ok := ir.Resolve(b.X).(*ssa.Call)
-			if !ok || !isFanInvoke(call, "GetRpmAvg") {
-				return
-			}
-			k, isConst := ir.ConstFloat(b.Y)
-			if !isConst {
-				return
-			}
-			switch b.Op {
-			case token.LEQ, token.LSS, token.EQL:
-				preds = append(preds, pred{b.Op, k, b})
-			}
-		})
-		for _, b := range T.Blocks {
+		body := ci.body
+		if len(body) == 0 {
+			body = []*ssa.Function{T}
+		}
+		for _, bf := range body {
+			Instrs(bf, func(ins ssa.Instruction) {
+				b, ok := ins.(*ssa.BinOp)
+				if !ok {
+					return
+				}
+				call, ok := ir.Resolve(b.X).(*ssa.Call)
+				if !ok || !isFanInvoke(call, "GetRpmAvg") {
+					return
+				}
+				k, isConst := ir.ConstFloat(b.Y)
+				if !isConst {
+					return
+				}
+				switch b.Op {
+				case token.LEQ, token.LSS, token.EQL:
+					preds = append(preds, pred{b.Op, k, b})
+				}
+			})
+		}
+		var bodyBlocks []*ssa.BasicBlock
+		for _, bf := range body {
+			bodyBlocks = append(bodyBlocks, bf.Blocks...)
+		}
+		for _, b := range bodyBlocks {
 			for si := range b.Succs {
 				if ir.HasFact(ir.EdgeFacts(b, si), token.LEQ, func(x, y ssa.Value) bool {
 					call, ok := x.(*ssa.Call)
@@ -104,9 +114,10 @@ func c10(c *Ctx) {
 			}
 			nSentinel++
 			facts := ranges.FactsAt(rv.ret.Block(), rv.via)
-			atMax := ci.maxSym != nil && (ir.HasFact(facts, token.GEQ, func(x, y ssa.Value) bool { return y == ci.maxSym }) ||
-				ir.HasFact(facts, token.GTR, func(x, y ssa.Value) bool { return y == ci.maxSym }) ||
-				ir.HasFact(facts, token.EQL, func(x, y ssa.Value) bool { return y == ci.maxSym || x == ci.maxSym }))
+			isMax := func(v ssa.Value) bool { return v == ci.maxSym || ir.RootP(v, c.StaticCallers) == ci.maxSym }
+			atMax := ci.maxSym != nil && (ir.HasFact(facts, token.GEQ, func(x, y ssa.Value) bool { return isMax(y) }) ||
+				ir.HasFact(facts, token.GTR, func(x, y ssa.Value) bool { return isMax(y) }) ||
+				ir.HasFact(facts, token.EQL, func(x, y ssa.Value) bool { return isMax(y) || isMax(x) }))
 			if !atMax {
 				bad = "the stall sentinel error at " + c.P.Pos(rv.ret.Pos()) + " is returned without request >= Fan.GetMaxPwm() being established (regulation would stop although the fan could still be pushed)"
 			}
